@@ -33,8 +33,8 @@ func init() {
 				"  | other (text : String)\n" +
 				"  deriving DecidableEq, Repr\n", nil
 		}},
-		Site{Module: mod, Pkg: pkg, Func: "NewContextCond", Name: "newCap", Kind: Expr, Sel: "call[make][0].arg[1]"},
-		Site{Module: mod, Pkg: pkg, Func: "ContextCond.Broadcast", Name: "broadcastCap", Kind: Expr, Sel: "call[make][0].arg[1]"},
+		Site{Module: mod, Pkg: pkg, Func: "NewContextCond", Name: "newCap", Kind: Custom, Custom: chanCap},
+		Site{Module: mod, Pkg: pkg, Func: "ContextCond.Broadcast", Name: "broadcastCap", Kind: Custom, Custom: chanCap},
 		Site{Module: mod, Pkg: pkg, Func: "ContextCond.Signal", Name: "signalArms", Kind: Select, Sel: "select[0]"},
 		Site{Module: mod, Pkg: pkg, Func: "ContextCond.Wait", Name: "waitArms", Kind: Select, Sel: "select[0]"},
 		Site{Module: mod, Pkg: pkg, Func: "ContextCond.Wait", Name: "waitOps", Kind: Custom, Custom: condOps("")},
@@ -43,6 +43,31 @@ func init() {
 		Site{Module: mod, Pkg: pkg, Func: "ContextCond.Wait", Name: "waitArmBodies", Kind: Custom, Custom: condArmBodies},
 		Site{Module: mod, Pkg: pkg, Func: "ContextCond.Signal", Name: "signalArmBodies", Kind: Custom, Custom: condArmBodies},
 	)
+}
+
+// chanCap emits the capacity of the first `make(chan struct{}[, n])` of the function (0 = unbuffered).
+func chanCap(c *Ctx, s *Site) (string, error) {
+	fd, err := c.FindFunc(s.Pkg, s.Func)
+	if err != nil {
+		return "", err
+	}
+	n, err := c.SelectPath(fd, "call[make][0]")
+	if err != nil {
+		return "", err
+	}
+	call := n.(*ast.CallExpr)
+	if len(call.Args) == 0 || c.Text(call.Args[0]) != "chanstruct{}" {
+		return "", fmt.Errorf("first make in %s is not make(chan struct{} ...)", s.Func)
+	}
+	capTxt := "0"
+	if len(call.Args) >= 2 {
+		lit, ok := call.Args[1].(*ast.BasicLit)
+		if !ok || lit.Kind != token.INT {
+			return "", fmt.Errorf("channel capacity in %s is not an integer literal: %s", s.Func, c.Pretty(call.Args[1]))
+		}
+		capTxt = lit.Value
+	}
+	return fmt.Sprintf("/-- capacity of `%s` in `%s` (0 = unbuffered) -/\ndef %s : Int := (%s : Int)\n", c.Pretty(call), s.Func, s.Name, capTxt), nil
 }
 
 // classifyCondStmt maps one statement of the ContextCond methods to an Op constructor.
@@ -74,7 +99,7 @@ func classifyCondStmt(c *Ctx, st ast.Stmt) string {
 		return ".sel"
 	}
 	if as, ok := st.(*ast.AssignStmt); ok && as.Tok == token.ASSIGN && len(as.Lhs) == 1 && len(as.Rhs) == 1 && c.Text(as.Lhs[0]) == "c.ch" {
-		if call, ok := as.Rhs[0].(*ast.CallExpr); ok && c.Text(call.Fun) == "make" && len(call.Args) == 2 && c.Text(call.Args[0]) == "chanstruct{}" {
+		if call, ok := as.Rhs[0].(*ast.CallExpr); ok && c.Text(call.Fun) == "make" && len(call.Args) >= 1 && len(call.Args) <= 2 && c.Text(call.Args[0]) == "chanstruct{}" {
 			return ".install"
 		}
 	}
